@@ -1124,7 +1124,7 @@ def check_functions(run, lst, ob):
             continue
         fu = next(u for u in fb if name_of[u] == nme)
         exp = sorted(exp_entries.get(nme, []))
-        opt = expected_entries.optional.get(nme, set())
+        opt = expected_entries.optional.get(nme, set()) - set(exp)
         # a retained zero-sized block (documented) may stay an entry;
         # promotion across a data block deleted in the same rewrite is
         # accepted either way
